@@ -157,7 +157,14 @@ func isLenOf(v ssa.Value, X ssa.Value) bool {
 	if !ok || b.Name() != "len" || len(c.Call.Args) != 1 {
 		return false
 	}
-	return c.Call.Args[0] == X || sameValueShape(c.Call.Args[0], X)
+	if c.Call.Args[0] == X || sameValueShape(c.Call.Args[0], X) {
+		return true
+	}
+	// len(S) for S = make([]T, len(X)): the same number by construction
+	if ms, isMake := c.Call.Args[0].(*ssa.MakeSlice); isMake {
+		return isLenOf(ms.Len, X)
+	}
+	return false
 }
 
 // lenArg matches len(x) and returns x.
